@@ -294,6 +294,26 @@ func parseSpecFile(path string, ps *PkgSpec, trustedFile bool) error {
 				ps.Guarded[c] = &GuardRule{Mutex: strings.TrimSpace(parts[0]), WriteOnly: wo, Label: label, Tags: tags, File: path, Line: ln}
 			}
 			cur = nil
+		case strings.HasPrefix(t, "convinv "):
+			// convinv PKGPATH.TYPE (s string) :: EXPR #label @tags    obligation at every conversion of a
+			// non-constant value to the named type anywhere in the package (e.g. html/template.HTML)
+			rest := strings.TrimPrefix(t, "convinv ")
+			sp := strings.Index(rest, " ")
+			tname := rest[:sp]
+			text, label, tags := splitLabelTags(" " + rest[sp+1:])
+			key := "convinv:" + tname
+			var fs *FuncSpec
+			for _, x := range ps.Funcs {
+				if x.Key == key {
+					fs = x
+				}
+			}
+			if fs == nil {
+				fs = &FuncSpec{Key: key, Ghost: true, File: path, Line: ln}
+				ps.Funcs = append(ps.Funcs, fs)
+			}
+			fs.Clauses = append(fs.Clauses, &Clause{Kind: KValInv, Text: text, Label: label, Tags: tags, File: path, Line: ln, Callee: tname})
+			cur = nil
 		case strings.HasPrefix(t, "valinv ") || strings.HasPrefix(t, "typeinv ") || strings.HasPrefix(t, "heapinv "):
 			// valinv TYPE (v TYPE) :: EXPR #label @tags     invariant of map-held values (checked at stores)
 			// typeinv PKGPATH.TYPE (v T) :: EXPR            assumed invariant of a library type (trusted)
@@ -822,6 +842,7 @@ func strSuffixOf(p, s string) bool { panic("ghost") }
 func strContains(s, sub string) bool { panic("ghost") }
 func strIndexOf(s, sub string) int { panic("ghost") }
 func strInRe(s string, re string) bool { panic("ghost") }
+func strMatchesGoRe(s string, goRegexp string) bool { panic("ghost") }
 func strReplaceAll(s, a, b string) string { panic("ghost") }
 func strToLower(s string) string { panic("ghost") }
 func strTrimPrefix(s, p string) string { panic("ghost") }
@@ -922,7 +943,7 @@ func (ps *PkgSpec) generate(trustedDir string) error {
 	for _, fs := range ps.Funcs {
 		var recvDecl, paramDecl, resDecl string
 		var pnames, rnames []string
-		if strings.HasPrefix(fs.Key, "valinv:") || strings.HasPrefix(fs.Key, "typeinv:") || strings.HasPrefix(fs.Key, "heapinv:") || strings.HasPrefix(fs.Key, "axiom:") {
+		if strings.HasPrefix(fs.Key, "valinv:") || strings.HasPrefix(fs.Key, "typeinv:") || strings.HasPrefix(fs.Key, "heapinv:") || strings.HasPrefix(fs.Key, "axiom:") || strings.HasPrefix(fs.Key, "convinv:") {
 			for _, c := range fs.Clauses {
 				n++
 				c.GoName = fmt.Sprintf("spec_%d_%s", n, c.Kind)
